@@ -257,12 +257,15 @@ func runServerMessage(c c19Case, reqIdx int) ([]string, modelRes) {
 	for i, p := range c.Stages {
 		i, p := i, p
 		mws = append(mws, func(next kmipserver.Next, ctx context.Context, rm *kmip.RequestMessage) (*kmip.ResponseMessage, error) {
+			var kept keptResults
+			defer kept.recheck(ctx, i)
 			return toReturn(runStage(p, i, ctx, msgID(rm), func(cctx context.Context, id string) modelRes {
 				m := rm
 				if id != msgID(rm) {
 					m = mkRequest(id)
 				}
-				return respID(next(cctx, m))
+				r, err := next(cctx, m)
+				return kept.keep(func() modelRes { return respID(r, err) })
 			}))
 		})
 	}
@@ -275,6 +278,29 @@ func runServerMessage(c c19Case, reqIdx int) ([]string, modelRes) {
 	ctx := context.WithValue(context.Background(), traceKey{}, tr)
 	resp := exec.HandleRequest(ctx, mkRequest(fmt.Sprintf("r%d", reqIdx)))
 	return tr.events, respID(resp, nil)
+}
+
+// keptResults: what a stage got back from each invocation of its continuation must still be that after later
+// invocations (a stage may answer with its first result): every result is read again when the stage is done.
+type keptResults struct {
+	get   []func() modelRes
+	first []modelRes
+}
+
+func (k *keptResults) keep(get func() modelRes) modelRes {
+	r := get()
+	k.get, k.first = append(k.get, get), append(k.first, r)
+	return r
+}
+
+func (k *keptResults) recheck(ctx context.Context, stage int) {
+	for j, g := range k.get {
+		if now := g(); now != k.first[j] {
+			if tr, ok := ctx.Value(traceKey{}).(*trace); ok {
+				tr.add("RESULT-OF-CALL-CHANGED-LATER(stage %d, call %d: %s became %s)", stage, j, k.first[j], now)
+			}
+		}
+	}
 }
 
 // foreignEvent marks the trace: a stage that was never registered on this chain ran.
@@ -322,13 +348,16 @@ func runServerItem(c c19Case, reqIdx int) ([]string, modelRes) {
 	for i, p := range c.Stages {
 		i, p := i, p
 		mws = append(mws, func(next kmipserver.BatchItemNext, ctx context.Context, bi *kmip.RequestBatchItem) (*kmip.ResponseBatchItem, error) {
+			var kept keptResults
 			r := runStage(p, i, ctx, itemID(bi), func(cctx context.Context, id string) modelRes {
 				b := bi
 				if id != itemID(bi) {
 					b = &kmip.RequestBatchItem{Operation: kmip.OperationActivate, RequestPayload: &payloads.ActivateRequestPayload{UniqueIdentifier: id}}
 				}
-				return itemRes(next(cctx, b))
+				r, err := next(cctx, b)
+				return kept.keep(func() modelRes { return itemRes(r, err) })
 			})
+			kept.recheck(ctx, i)
 			// the batch-item API needs a non-nil item even with an error (the executor writes the failure into it)
 			out := &kmip.ResponseBatchItem{Operation: kmip.OperationActivate}
 			if r.err != "" {
@@ -386,12 +415,15 @@ func runClient(c c19Case) (traces [][]string, finals []modelRes, coreLogs [][]st
 	for i, p := range c.Stages {
 		i, p := i, p
 		mws = append(mws, func(next kmipclient.Next, ctx context.Context, rm *kmip.RequestMessage) (*kmip.ResponseMessage, error) {
+			var kept keptResults
+			defer kept.recheck(ctx, i)
 			return toReturn(runStage(p, i, ctx, msgID(rm), func(cctx context.Context, id string) modelRes {
 				m := rm
 				if id != msgID(rm) {
 					m = mkRequest(id)
 				}
-				return respID(next(cctx, m))
+				r, err := next(cctx, m)
+				return kept.keep(func() modelRes { return respID(r, err) })
 			}))
 		})
 	}
@@ -582,7 +614,7 @@ func TestC19Chains(t *testing.T) {
 	const name = "TestC19Chains"
 	rec := evid.New("C19", name, "chains of 0..4 stages for the client Roundtrip chain, the server message chain and the server batch-item chain; each stage is a generated program: call the continuation 0..3 times, "+
 		"per call pass on the received or a substituted message and the received, a derived or a detached (not derived from the received one) context, return the last/first result, a substituted result or an error; 1..4 concurrent requests share the chain; "+
-		"oracle: a recursive interpreter of the same programs predicts the exact event trace (stage entries with message and context, core executions, results seen) and the caller's result; "+
+		"oracle: a recursive interpreter of the same programs predicts the exact event trace (stage entries with message and context, core executions, results seen) and the caller's result; every result a stage got back is read again when the stage ends and must be unchanged; "+
 		"non-trivial = a non-last stage calls the continuation >= 2 times, or a message is substituted; distinct by case").Attach(t)
 	if rp := evid.LoadReplay(name); rp != nil {
 		var c c19Case
